@@ -12,7 +12,9 @@ from pytableaux.tools.linked import linqset
 
 PRED = {1: Predicate(0, 0, 1), 2: Predicate(0, 0, 2), 3: Predicate(1, 0, 1), 4: Predicate(2, 0, 2), 5: Predicate(1, 0, 2)}
 PNUM = {v: k for k, v in PRED.items()}
-SLICES = {'0:1': slice(0, 1), '1:': slice(1, None), ':2': slice(None, 2), '1:3': slice(1, 3), '::2': slice(None, None, 2)}
+SLICES = {'0:1': slice(0, 1), '1:': slice(1, None), ':2': slice(None, 2), '1:3': slice(1, 3), '::2': slice(None, None, 2),
+          '::-1': slice(None, None, -1), '::-2': slice(None, None, -2), '3:0:-2': slice(3, 0, -2)}
+SORTKEY = {1: 1, 2: 2, 3: 1, 4: 2, 5: 2}
 
 
 class Dom:
@@ -55,8 +57,14 @@ def observe(D, c):
         rev = [D.num(x) for x in reversed(c)]
     except Exception:
         rev = [-99]
+    slices = []
+    for name in ('::-1', '::-2', '3:0:-2', '1:3', '::2'):
+        try:
+            slices.append({'sl': name, 'got': [D.num(x) for x in c[SLICES[name]]]})
+        except Exception:
+            slices.append({'sl': name, 'got': [-99]})
     return {'list': lst, 'len': ln, 'member': member[1:], 'index': index[1:], 'getitem': getitem,
-            'rev': rev}
+            'rev': rev, 'slices': slices}
 
 
 def refs_of(D, c):
@@ -91,6 +99,8 @@ def do(D, c, e):
             c.sort(key=D.sortkey())
         else:
             c.sort()
+    elif op == 'sortkr':
+        c.sort(key=lambda x: SORTKEY[D.num(x)], reverse=True)
     elif op == 'reverse': c.reverse()
     elif op == 'clear': c.clear()
     elif op == 'ior': c |= vals
